@@ -21,6 +21,16 @@ def arrs(n):
     return _ARR[n]
 
 
+_ARR2 = {}
+
+
+def arrs2(n):
+    """the same vectors in SEPARATE buffers (equal content must be recognised as equal, identity of the buffer is irrelevant)"""
+    if n not in _ARR2:
+        _ARR2[n] = [(t, a.copy()) for t, a in arrs(n)]
+    return _ARR2[n]
+
+
 def score(Y, X, r=1.0, c=False):
     f = estimator()
     return float(f(np.asarray(Y, dtype=np.int32), np.asarray(X, dtype=np.int32), np.float32(r), bool(c)))
